@@ -39,3 +39,28 @@ package ring
 //@   loop 1 invariant forall a string :: in(a, instances) ==> len(instances[a].indexes) == len(instances[a].itemTrackers) && len(instances[a].indexes) >= 1
 //@   loop 1 invariant forall a string :: in(a, instances) ==> (forall j int :: 0 <= j && j < len(instances[a].indexes) ==> 0 <= instances[a].indexes[j] && instances[a].indexes[j] <= i)
 //@   loop 2 invariant cleanups == 0
+//@
+//@ # ---- the per-key accounting (sequential view: one replica outcome is recorded at a time; the atomic counters make the
+//@ # decisions race-free, which is assumed, not proved) ----------------------------------------------------------------
+//@ func itemTracker.recordError
+//@   property C10
+//@   ensures  family: (i.failedClient.v == old(i).failedClient.v + 1 && i.failedServer.v == old(i).failedServer.v && result == i.failedClient.v) ||
+//@              (i.failedServer.v == old(i).failedServer.v + 1 && i.failedClient.v == old(i).failedClient.v && result == i.failedServer.v)
+//@   ensures  frame: i.minSuccess == old(i).minSuccess && i.maxFailures == old(i).maxFailures && i.remaining.v == old(i).remaining.v && i.succeeded.v == old(i).succeeded.v
+//@
+//@ func batchTracker.record
+//@   property C10
+//@   requires forall j int :: 0 <= j && j < len(itemTrackers) ==> itemTrackers[j] != nil && 0 <= itemTrackers[j].maxFailures && itemTrackers[j].maxFailures < 2147483647 && 0 <= itemTrackers[j].minSuccess && itemTrackers[j].minSuccess < 2147483647
+//@   ghost var sig bool = false
+//@   ghost var fin bool = false
+//@   loop 0 head sig := false
+//@   loop 0 head fin := false
+//@   at after@atomic.Int32.Inc#0: sig := true
+//@   at after@atomic.Int32.Inc#2: sig := true
+//@   at after@atomic.Int32.Dec#1: fin := true
+//@   # a failed replica call: the key's failure is signalled exactly when its error family now exceeds the key's tolerance,
+//@   # or when this was the key's last outstanding replica
+//@   loop 0 end assert fail_fast: err != nil ==> !fin && (sig <==> (errCount > it.maxFailures || it.remaining.v == 0))
+//@   # a successful replica call: the key counts as done exactly when this success reaches the key's threshold; if the
+//@   # threshold is still out of reach and this was the last outstanding replica, the key's failure is signalled
+//@   loop 0 end assert success: err == nil ==> (fin <==> it.succeeded.v == it.minSuccess) && (sig <==> (it.succeeded.v < it.minSuccess && it.remaining.v == 0))
